@@ -716,3 +716,38 @@ func (e *Engine) immutabilityObligations() *VC {
 	}
 	return vc
 }
+
+// recursiveWith: callee (by contract key) can reach caller again through
+// static calls, i.e. they are in the same recursion cycle.
+func (e *Engine) recursiveWith(caller, callee string) bool {
+	if caller == callee {
+		return true
+	}
+	start := e.fnByKey[callee]
+	target := e.fnByKey[caller]
+	if start == nil || target == nil {
+		return false
+	}
+	seen := map[*ssa.Function]bool{}
+	var dfs func(f *ssa.Function, depth int) bool
+	dfs = func(f *ssa.Function, depth int) bool {
+		if f == target {
+			return true
+		}
+		if seen[f] || depth > 6 || f.Pkg != e.pkg {
+			return false
+		}
+		seen[f] = true
+		for _, b := range f.Blocks {
+			for _, in := range b.Instrs {
+				if c, ok := in.(ssa.CallInstruction); ok {
+					if sc := c.Common().StaticCallee(); sc != nil && dfs(sc, depth+1) {
+						return true
+					}
+				}
+			}
+		}
+		return false
+	}
+	return dfs(start, 0)
+}
